@@ -586,6 +586,13 @@ def check(pid, tier="quick", seed=None, replay=None):
             known_lines.append("KNOWN-FINDING: property=%s class=%s %s" % (pid, cls, kf[cls].split("class=%s" % cls, 1)[1].strip()))
         else:
             new_viol.append(v)
+    # every listed finding of this property gets its KNOWN-FINDING line on every run; a finding whose failing
+    # schedule/input did not occur in this run (the schedule-dependent ones of C07) is printed with a note
+    seen_cls = set(l.split("class=", 1)[1].split()[0] for l in known_lines)
+    for cls in sorted(kf):
+        if cls not in seen_cls:
+            known_lines.append("KNOWN-FINDING: property=%s class=%s (listed; its failing schedule did not occur in this run) %s"
+                               % (pid, cls, kf[cls].split("class=%s" % cls, 1)[1].strip()))
     for l in sorted(set(known_lines)):
         print(l, flush=True)
 
